@@ -25,28 +25,28 @@ package protocol
 
 //@ func (*MultiHandler).Result
 //@   nopanic[C05,C17]
-//@   requires h != nil && !excl(h.mtx)
-//@   ensures[C17] !excl(h.mtx)
+//@   requires h != nil && !held(h.mtx)
+//@   ensures[C17] !held(h.mtx)
 //@   ensures[C17] !(result0 != nil && result1 != nil)
 //@   ensures[C17] atlock(fin(h)) ==> (result0 != nil || atlock(h.err) != nil)
 
 //@ func (*MultiHandler).Listen
 //@   nopanic[C05,C17]
-//@   requires h != nil && !excl(h.mtx)
-//@   ensures[C17] !excl(h.mtx)
+//@   requires h != nil && !held(h.mtx)
+//@   ensures[C17] !held(h.mtx)
 
 //@ func (*MultiHandler).Stop
 //@   nopanic[C05,C17]
-//@   requires h != nil && !excl(h.mtx)
-//@   ensures[C17] !excl(h.mtx)
+//@   requires h != nil && !held(h.mtx)
+//@   ensures[C17] !held(h.mtx)
 //@   ensures[C17] fin(h) && closed(h.out)
 //@   ensures[C17] atlock(fin(h)) ==> (h.err == atlock(h.err) && h.result == atlock(h.result))
 //@   ensures[C17] !atlock(fin(h)) ==> h.err != nil
 
 //@ func (*MultiHandler).CanAccept
 //@   nopanic[C05,C17]
-//@   requires h != nil && !excl(h.mtx)
-//@   ensures[C17] !excl(h.mtx)
+//@   requires h != nil && !held(h.mtx)
+//@   ensures[C17] !held(h.mtx)
 //@   ensures[C09] result == atlock(canacc(h, msg))
 //@   ensures[C09,C07] nochange()
 
@@ -58,8 +58,8 @@ package protocol
 
 //@ func (*MultiHandler).Accept
 //@   nopanic[C05,C17]
-//@   requires h != nil && !excl(h.mtx)
-//@   ensures[C17] !excl(h.mtx)
+//@   requires h != nil && !held(h.mtx)
+//@   ensures[C17] !held(h.mtx)
 //@   ensures[C09] atlock(!canacc(h, msg)) ==> nochange()
 //@   ensures[C07,C17] atlock(canacc(h, msg) && (fin(h) || dupl(h, msg))) ==> nochange()
 //@   ensures[C04] (!called(finalize) && h.err != nil && atlock(h.err) == nil) ==> (len(h.err.Culprits) == 1 && h.err.Culprits[0] == msg.From)
@@ -196,28 +196,28 @@ package protocol
 
 //@ func (*TwoPartyHandler).Result
 //@   nopanic[C05,C17]
-//@   requires h != nil && !excl(h.mtx)
-//@   ensures[C17] !excl(h.mtx)
+//@   requires h != nil && !held(h.mtx)
+//@   ensures[C17] !held(h.mtx)
 //@   ensures[C17] !(result0 != nil && result1 != nil)
 //@   ensures[C17] atlock(fin2(h)) ==> (result0 != nil || result1 == atlock(h.err))
 
 //@ func (*TwoPartyHandler).Listen
 //@   nopanic[C05,C17]
-//@   requires h != nil && !excl(h.mtx)
-//@   ensures[C17] !excl(h.mtx)
+//@   requires h != nil && !held(h.mtx)
+//@   ensures[C17] !held(h.mtx)
 
 //@ func (*TwoPartyHandler).Stop
 //@   nopanic[C05,C17]
-//@   requires h != nil && !excl(h.mtx)
-//@   ensures[C17] !excl(h.mtx)
+//@   requires h != nil && !held(h.mtx)
+//@   ensures[C17] !held(h.mtx)
 //@   ensures[C17] fin2(h) && closed(h.out)
 //@   ensures[C17] atlock(fin2(h)) ==> (h.err == atlock(h.err) && h.result == atlock(h.result))
 //@   ensures[C17] !atlock(fin2(h)) ==> h.err != nil
 
 //@ func (*TwoPartyHandler).CanAccept
 //@   nopanic[C05,C17]
-//@   requires h != nil && !excl(h.mtx)
-//@   ensures[C17] !excl(h.mtx)
+//@   requires h != nil && !held(h.mtx)
+//@   ensures[C17] !held(h.mtx)
 
 //@ func (*TwoPartyHandler).canAccept
 //@   nopanic[C05,C17]
@@ -227,8 +227,8 @@ package protocol
 
 //@ func (*TwoPartyHandler).Accept
 //@   nopanic[C05,C17]
-//@   requires h != nil && !excl(h.mtx)
-//@   ensures[C17] !excl(h.mtx)
+//@   requires h != nil && !held(h.mtx)
+//@   ensures[C17] !held(h.mtx)
 //@   ensures[C17] atlock(fin2(h)) ==> (h.err == atlock(h.err) && h.result == atlock(h.result))
 
 //@ func (*TwoPartyHandler).abort
